@@ -116,12 +116,29 @@ func Gen(r *rand.Rand, name string, o GenOpts) *Scenario {
 	} else if r.Intn(4) == 0 {
 		nic = 1 + r.Intn(2)
 	}
+	if o.Ics && r.Intn(2) == 0 {
+		nic = 3 + r.Intn(3) // longer chains, with nil entries at any position
+	}
 	for i := 0; i < nic; i++ {
 		ic := IcSpec{AddHeader: r.Intn(2) == 0}
 		if r.Intn(3) == 0 {
 			ic.PanicOn = append(ic.PanicOn, int64(1+r.Intn(n)))
 		}
+		if nic >= 3 && r.Intn(4) == 0 {
+			ic = IcSpec{Nil: true}
+		}
 		sc.Ics = append(sc.Ics, ic)
+	}
+	if nic >= 3 {
+		real := 0
+		for _, ic := range sc.Ics {
+			if !ic.Nil {
+				real++
+			}
+		}
+		if real == 0 {
+			sc.Ics[nic-1] = IcSpec{AddHeader: true}
+		}
 	}
 	if o.Steer {
 		kinds := []string{"pp.newHWM", "bp.response", "pp.flush.level", "bridge.send", "retryBatch.start"}
@@ -155,6 +172,16 @@ func Corpus() []*Scenario {
 	out = append(out, &Scenario{Name: "corpus/interceptor-retry-legacy", Brokers: 1, Partitions: 1, Topics: []string{"t0"}, RetryMax: 2,
 		V2: false, FlushMsgs: 2, Msgs: []MsgSpec{two(1), two(2), two(3)}, Script: []Fault{{Kind: Retriable, Err: 7, Only: -1}},
 		Ics: []IcSpec{{}, {PanicOn: []int64{2}}, {}}})
+	// nil entries in the chain (a contained panic each), at every position: the others keep their order
+	for pos := 0; pos < 4; pos++ {
+		ics := []IcSpec{{AddHeader: true}, {AddHeader: true}, {AddHeader: true}, {AddHeader: true}}
+		ics[pos] = IcSpec{Nil: true}
+		out = append(out, &Scenario{Name: fmt.Sprintf("corpus/interceptor-nil-at-%d", pos), Brokers: 1, Partitions: 1, Topics: []string{"t0"},
+			RetryMax: 1, V2: true, Msgs: []MsgSpec{two(1), two(2)}, Script: []Fault{{Kind: Retriable, Err: 6, Only: -1}}, Ics: ics})
+	}
+	out = append(out, &Scenario{Name: "corpus/interceptor-nil-and-panic", Brokers: 1, Partitions: 1, Topics: []string{"t0"}, RetryMax: 1, V2: true,
+		Msgs: []MsgSpec{two(1), two(2), two(3)},
+		Ics:  []IcSpec{{AddHeader: true}, {Nil: true}, {Nil: true}, {AddHeader: true, PanicOn: []int64{2}}, {AddHeader: true}}})
 	// retry exhaustion, plain
 	out = append(out, &Scenario{Name: "corpus/out-of-retries", Brokers: 1, Partitions: 2, Topics: []string{"t0"}, RetryMax: 1, V2: true,
 		Msgs:   []MsgSpec{two(1), {ID: 2, Topic: "t0", Choice: 1}, two(3), {ID: 4, Topic: "t0", Choice: 1}},
